@@ -253,7 +253,8 @@ def in_python_domain(ctx, d, v, contract=None):
 
 
 # ------------------------------------------------------------------------------ body refines contract (generic)
-def verify_refines(reg, fn, contract, make, unit, compare_on_raise=True, inline=None, inline_phantom=False):
+def verify_refines(reg, fn, contract, make, unit, compare_on_raise=True, inline=None, inline_phantom=False, setup=None,
+                   models=None):
     """Run the contract (as the callers see it) and the real body on identical generic inputs
     and require identical outcomes: same return value / same exception class, same bytes
     appended to every sink, same remainder of every source."""
@@ -261,8 +262,10 @@ def verify_refines(reg, fn, contract, make, unit, compare_on_raise=True, inline=
 
     def run(ctx, res=res):
         a_body, a_spec, pairs, info = make(ctx)
-        it = make_interp(ctx, reg, exclude=fn, inline=inline)
+        it = make_interp(ctx, reg, exclude=fn, inline=inline, models=models)
         it.inline_phantom = inline_phantom
+        if setup is not None:
+            setup(it)
         try:
             sv = contract.apply(it, list(a_spec), {})
             spec_out = Outcome("return", sv)
